@@ -36,6 +36,8 @@ pub fn shape_programs() -> Vec<(&'static str, Prog)> {
     ("f3-require-role-swap", Prog { n_res: 1, bodies: vec![vec![st(Read(0, e)), sg(1, Req(1, q))], vec![st(Read(0, e)), sg(0, Req(0, q))]] }),
     // F3 hidden-read witness
     ("f3-reader-of-dropped-generator", Prog { n_res: 2, bodies: vec![vec![st(Read(0, e)), sg(1, Write(1, Src::Acc, e))], vec![st(Read(0, e)), sg(1, Req(0, q)), st(Read(1, e))]] }),
+    // F2 witness: two dependencies with different checkers on one target
+    ("f2-two-checkers", Prog { n_res: 1, bodies: vec![vec![st(Read(0, RC::Exists)), st(Read(0, e))]] }),
     ("self-loop", Prog { n_res: 0, bodies: vec![vec![st(Req(0, q))]] }),
     ("two-cycle", Prog { n_res: 0, bodies: vec![vec![st(Req(1, q))], vec![st(Req(0, q))]] }),
     ("three-cycle", Prog { n_res: 0, bodies: vec![vec![st(Req(1, q))], vec![st(Req(2, q))], vec![st(Req(0, q))]] }),
@@ -47,7 +49,7 @@ pub fn shape_programs() -> Vec<(&'static str, Prog)> {
 }
 
 #[derive(Clone, Copy, PartialEq, Eq, Debug)]
-pub enum Slice { Wf, Viol, All, WfOrViol, WfOrPanic }
+pub enum Slice { Wf, Viol, All, WfOrViol, WfOrPanic, WfOrMulti }
 
 fn in_slice(class: &Class, slice: Slice) -> bool {
   let f = &class.flags;
@@ -55,6 +57,7 @@ fn in_slice(class: &Class, slice: Slice) -> bool {
   match slice {
     Slice::Wf => class.wf(),
     Slice::WfOrPanic => { let mut g = *f; g.task_panic = false; !g.any() }
+    Slice::WfOrMulti => { let mut g = *f; g.multi_dep = false; !g.any() }
     Slice::Viol => !excluded && f.any_violation(),
     Slice::WfOrViol | Slice::All => !excluded,
   }
@@ -87,6 +90,15 @@ fn has_op(p: &Prog, f: impl Fn(&Op) -> bool) -> bool { p.bodies.iter().flatten()
 /// A program is interesting for incremental behaviour only if something can change: it reads a resource.
 fn reads_something(p: &Prog) -> bool { has_op(p, |o| matches!(o, Op::Read(..))) }
 
+/// One group of programs explored to one history depth.
+#[derive(Clone, Debug)]
+pub struct Group { pub enums: Vec<EnumCfg>, pub depth: usize, pub shapes: bool }
+
+fn parse_enum(base: &EnumCfg, t: &str) -> Option<EnumCfg> {
+  let v: Vec<usize> = t.split(',').filter_map(|x| x.parse().ok()).collect();
+  if v.len() == 3 { let mut c = base.clone(); c.n_tasks = v[0]; c.n_res = v[1] as u8; c.max_total = v[2]; c.max_per_task = v[2]; Some(c) } else { None }
+}
+
 pub fn run(args: &Args) -> i32 {
   let Some(prop) = Prop::from_str(&args.property) else { engine_error("unknown property for the history engine") };
   let mut rep = Report::new(args);
@@ -94,64 +106,124 @@ pub fn run(args: &Args) -> i32 {
   let quick = args.tier == Tier::Quick;
   let mut cfg = HistCfg {
     prop, max_roots: 2, bottom_up: true, bu_then: false, bu_pre: false, bu_over_report: false, set_fail: false, crashes: 0,
-    depth: if quick { 4 } else { 6 }, state_cap: 0, probe: false, scope_in_key: true,
-    wall_cap: if quick { 40.0 } else { 1500.0 },
+    depth: 0, state_cap: 0, probe: false, scope_in_key: true,
+    wall_cap: if quick { 45.0 } else { 1500.0 }, collect_digests: false,
   };
   let mut slice = Slice::Wf;
   let mut map_faulty = false;
-  let mut enum_cfgs: Vec<EnumCfg> = if quick {
-    vec![EnumCfg::structural(2, 2, 3)]
+  let s = EnumCfg::structural;
+  // Base plan: structural enumeration with exact checkers.
+  let mut groups: Vec<Group> = if quick {
+    vec![Group { enums: vec![s(2, 2, 3)], depth: 6, shapes: true }, Group { enums: vec![s(3, 2, 2)], depth: 4, shapes: false }]
   } else {
-    vec![EnumCfg::structural(2, 2, 4), EnumCfg::structural(3, 2, 3)]
+    vec![
+      Group { enums: vec![s(2, 2, 4)], depth: 7, shapes: true },
+      Group { enums: vec![s(3, 2, 3), s(3, 3, 3)], depth: 5, shapes: false },
+      Group { enums: vec![s(4, 2, 3)], depth: 4, shapes: false },
+    ]
   };
   let filter: Box<dyn Fn(&Prog) -> bool> = Box::new(|p| reads_something(p));
   match prop {
     Prop::C01 | Prop::C02 => {}
-    Prop::C03 | Prop::C04 => { cfg.probe = prop == Prop::C03; cfg.bu_over_report = true; cfg.bu_then = !quick; cfg.bu_pre = !quick; cfg.max_roots = if quick { 1 } else { 2 }; }
-    Prop::C05 | Prop::C06 | Prop::C07 | Prop::C20 => { slice = Slice::WfOrViol; }
-    Prop::C08 => {}
+    Prop::C03 | Prop::C04 => {
+      cfg.probe = prop == Prop::C03; cfg.bu_over_report = true; cfg.bu_then = true; cfg.bu_pre = !quick; cfg.max_roots = if quick { 1 } else { 2 };
+      if quick { groups[0].depth = 5; }
+    }
+    Prop::C05 | Prop::C06 | Prop::C07 | Prop::C20 => { slice = Slice::WfOrViol; if quick { groups[0].depth = 5; } else { groups[0].depth = 6; } }
+    Prop::C08 => {
+      // plus programs that declare several dependencies with different checkers on one target (recorded finding F2)
+      slice = Slice::WfOrMulti;
+      let mut e = s(if quick { 1 } else { 2 }, 1, if quick { 2 } else { 3 });
+      e.read_rcs = vec![RC::Exact, RC::Exists];
+      e.ocs = vec![OC::Equals, OC::IsZero];
+      groups.push(Group { enums: vec![e], depth: if quick { 5 } else { 6 }, shapes: false });
+    }
     Prop::C09 => {
-      let mut e = EnumCfg::structural(2, 2, if quick { 2 } else { 3 });
+      let mut e = s(2, 2, if quick { 2 } else { 3 });
       e.ocs = vec![OC::Equals, OC::IsZero, OC::Always, OC::PieEquals];
       e.read_rcs = vec![RC::Exact, RC::Exists, RC::Always];
       e.write_rcs = vec![RC::Exact, RC::Exists, RC::Always];
       e.write_decl = true;
-      enum_cfgs.push(e);
+      groups.push(Group { enums: vec![e], depth: if quick { 5 } else { 6 }, shapes: false });
     }
-    Prop::C18 => { cfg.set_fail = true; map_faulty = true; }
+    Prop::C18 => { cfg.set_fail = true; map_faulty = true; if quick { groups[0].depth = 5; } else { groups[0].depth = 6; } }
     Prop::C19 => {
       slice = Slice::WfOrPanic;
       cfg.crashes = if quick { 1 } else { 2 };
-      let mut e = EnumCfg::structural(2, 1, if quick { 3 } else { 4 });
+      let mut e = s(2, 1, if quick { 3 } else { 4 });
       e.panic_op = true;
-      enum_cfgs.push(e);
+      groups = if quick {
+        vec![Group { enums: vec![s(2, 2, 3), e], depth: 4, shapes: true }]
+      } else {
+        vec![Group { enums: vec![s(2, 2, 3), e], depth: 5, shapes: true }, Group { enums: vec![s(3, 2, 3)], depth: 4, shapes: false }]
+      };
     }
-    Prop::C17 => { slice = Slice::WfOrViol; cfg.bu_then = true; crate::runner::set_helper_mode_global(true); }
+    Prop::C16 => { cfg.collect_digests = true; slice = Slice::WfOrViol; cfg.bu_then = true; if quick { groups[0].depth = 5; } else { groups[0].depth = 6; } }
+    Prop::C17 => { slice = Slice::WfOrViol; cfg.bu_then = true; crate::runner::set_helper_mode_global(true); if quick { groups[0].depth = 4; groups[1].depth = 3; } else { groups[0].depth = 5; groups[1].depth = 4; } }
     _ => {}
   }
-  let _ = &mut enum_cfgs;
-  let mut programs = programs_for(&enum_cfgs, slice, true, &*filter);
-  if map_faulty {
-    // C18: every resource dependency uses the error-injecting checker (= Exact while its failure flag is clear).
-    for (p, _) in programs.iter_mut() {
-      for s in p.bodies.iter_mut().flatten() {
-        s.op = match s.op {
-          Op::Read(r, _) => Op::Read(r, RC::Faulty),
-          Op::Write(r, src, _) => Op::Write(r, src, RC::Faulty),
-          Op::WriteDecl(r, src, _) => Op::WriteDecl(r, src, RC::Faulty),
-          o => o,
-        };
+  // Experiment overrides (not used by the registered commands).
+  if let Ok(e) = std::env::var("VERIF_GROUPS") {
+    // e.g. "6:2,2,3;4:3,2,2"
+    let base = groups[0].enums[0].clone();
+    groups = e.split(';').filter_map(|g| {
+      let (d, en) = g.split_once(':')?;
+      Some(Group { enums: en.split('+').filter_map(|t| parse_enum(&base, t)).collect(), depth: d.parse().ok()?, shapes: true })
+    }).collect();
+  }
+  if let Ok(w) = std::env::var("VERIF_WALL") { if let Ok(w) = w.parse() { cfg.wall_cap = w; } }
+  let child_file = args.extra.iter().position(|a| a == "--digests-to").map(|pos| args.extra.get(pos + 1).cloned().unwrap_or_else(|| engine_error("--digests-to needs a file")));
+  let mut stats = Stats::default();
+  let mut all_programs: Vec<(Prog, Class)> = Vec::new();
+  let mut group_desc: Vec<Value> = Vec::new();
+  let started = std::time::Instant::now();
+  for g in &groups {
+    let mut programs = programs_for(&g.enums, slice, g.shapes, &*filter);
+    // a program explored in an earlier (deeper) group is not explored again
+    programs.retain(|(p, _)| !all_programs.iter().any(|(q, _)| q == p));
+    if map_faulty {
+      // C18: every resource dependency uses the error-injecting checker (= Exact while its failure flag is clear).
+      for (p, _) in programs.iter_mut() {
+        for st in p.bodies.iter_mut().flatten() {
+          st.op = match st.op {
+            Op::Read(r, _) => Op::Read(r, RC::Faulty),
+            Op::Write(r, src, _) => Op::Write(r, src, RC::Faulty),
+            Op::WriteDecl(r, src, _) => Op::WriteDecl(r, src, RC::Faulty),
+            o => o,
+          };
+        }
       }
     }
+    let mut gcfg = cfg.clone();
+    gcfg.depth = g.depth;
+    gcfg.wall_cap = (cfg.wall_cap - started.elapsed().as_secs_f64()).max(1.0);
+    let gs = run_programs(&mut rep, &gcfg, programs.clone(), threads());
+    group_desc.push(json!({
+      "enumerations": g.enums.iter().map(|c| c.describe()).collect::<Vec<_>>(), "shape_programs": g.shapes, "history_depth": g.depth,
+      "programs": gs.programs, "states": gs.states, "transitions": gs.transitions,
+      "programs_to_fixed_point": gs.fixed_point_programs, "programs_cut_at_depth": gs.depth_capped_programs, "wall_cap_hit": gs.wall_capped,
+    }));
+    stats.merge(&gs);
+    all_programs.extend(programs);
   }
-  let stats = run_programs(&mut rep, &cfg, programs.clone(), threads());
+  cfg.depth = groups.iter().map(|g| g.depth).max().unwrap_or(0);
+  // C16, child mode: only write the per-history digests for the parent to compare.
+  if let Some(file) = child_file {
+    stats.digests.sort();
+    let mut bytes = Vec::with_capacity(stats.digests.len() * 24);
+    for (a, b, c) in &stats.digests { bytes.extend_from_slice(&a.to_le_bytes()); bytes.extend_from_slice(&b.to_le_bytes()); bytes.extend_from_slice(&c.to_le_bytes()); }
+    std::fs::write(&file, bytes).unwrap_or_else(|e| engine_error(&format!("cannot write {}: {}", file, e)));
+    return if stats.wall_capped { 3 } else { 0 };
+  }
+  if prop == Prop::C16 { c16_cross_process(args, &mut rep, &mut stats, &all_programs); }
   let rule = format!(
-    "programs: all canonical programs (modulo task/resource renaming, dead and redundant guards removed) of the task language with {} plus the named shape programs, restricted to slice {:?} as classified by the from-scratch reference model; per program breadth-first search over events (Set(r,v), TopDown(1..{} distinct roots), BottomUp(reported ⊇ dirty)) on the real Pie, states deduplicated on the exact store dump + cells + scope bookkeeping; a step trace is distinct by its digest",
-    enum_cfgs.iter().map(|c| c.describe()).collect::<Vec<_>>().join(" | "), slice, cfg.max_roots);
-  let samples = sample_histories(&programs);
-  fill_evidence(&mut rep, &cfg, &stats, &programs, &rule, samples);
+    "programs: all canonical programs (modulo task/resource renaming, dead and redundant guards removed) of the interpreted task language for each enumeration listed under bounds.groups, plus the named shape programs, restricted to slice {:?} as classified by the from-scratch reference model M1; per program a breadth-first search over events (Set(r,v) for every resource and value, TopDown(1..{} distinct roots), BottomUp(reported ⊇ dirty, then/pre roots as in bounds){}{}) on the REAL Pie, every path re-executed on a fresh instance, states deduplicated on the exact store dump + cells + scope bookkeeping; every transition is judged by the oracles of {} only; a step trace is distinct by its digest",
+    slice, cfg.max_roots, if cfg.set_fail { ", SetFail(r,b)" } else { "" }, if cfg.crashes > 0 { ", crash decoration at every crash point of every build" } else { "" }, prop.name());
+  let samples = stats.samples.iter().take(6).cloned().collect();
+  fill_evidence(&mut rep, &cfg, &stats, &all_programs, &rule, samples);
+  rep.set("groups", Value::Array(group_desc));
   rep.assume("task bodies are deterministic functions of what their checkers observe (true by construction of the interpreter)");
-  rep.assume("values {absent,0,1}, at most 4 tasks and 2-3 resources, sizes as stated in bounds; larger programs are not covered");
+  rep.assume("values {absent,0,1}; program sizes and history depths as listed under groups; larger programs and deeper histories are not covered");
   rep.finish()
 }
 
@@ -173,7 +245,7 @@ fn replay(args: &Args, prop: Prop, file: &std::path::Path, mut rep: Report) -> i
   let class = classify(&prog);
   let cfg = HistCfg {
     prop, max_roots: 3, bottom_up: true, bu_then: true, bu_pre: true, bu_over_report: true, set_fail: true, crashes: 2, depth: path.len(),
-    state_cap: 0, probe: prop == Prop::C03, scope_in_key: true, wall_cap: 60.0,
+    state_cap: 0, probe: prop == Prop::C03, scope_in_key: true, wall_cap: 60.0, collect_digests: false,
   };
   install();
   let crashes = path.iter().filter(|p| p.crash_at.is_some()).count();
@@ -204,3 +276,49 @@ fn replay(args: &Args, prop: Prop, file: &std::path::Path, mut rep: Report) -> i
 }
 
 fn install() { crate::runner::install_panic_hook(); }
+
+/// C16: the same bounded exploration in a second process (fresh hash seeds, fresh address space); every history's
+/// step digest must agree pairwise.
+fn c16_cross_process(args: &Args, rep: &mut Report, stats: &mut Stats, programs: &[(Prog, Class)]) {
+  let _ = std::fs::create_dir_all("/verif/tmp");
+  let file = format!("/verif/tmp/c16-{}.bin", std::process::id());
+  let exe = std::env::current_exe().unwrap_or_else(|e| engine_error(&format!("current_exe: {}", e)));
+  let status = std::process::Command::new(exe)
+    .arg("C16").arg(args.tier.as_str()).arg("--digests-to").arg(&file)
+    .stdout(std::process::Stdio::null())
+    .status().unwrap_or_else(|e| engine_error(&format!("cannot start the second process: {}", e)));
+  if !status.success() { let _ = std::fs::remove_file(&file); engine_error(&format!("second process failed: {:?}", status)); }
+  let bytes = std::fs::read(&file).unwrap_or_else(|e| engine_error(&format!("cannot read {}: {}", file, e)));
+  let _ = std::fs::remove_file(&file);
+  let mut other: Vec<(u64, u64, u64)> = Vec::with_capacity(bytes.len() / 24);
+  for ch in bytes.chunks_exact(24) {
+    other.push((u64::from_le_bytes(ch[0..8].try_into().unwrap()), u64::from_le_bytes(ch[8..16].try_into().unwrap()), u64::from_le_bytes(ch[16..24].try_into().unwrap())));
+  }
+  stats.digests.sort();
+  let mine = &stats.digests;
+  let mut compared = 0usize;
+  let mut mismatches = 0usize;
+  if mine.len() != other.len() && !stats.wall_capped {
+    rep.violation(Violation { property: "C16".into(), oracle: "C16/cross-process-history-set".into(), key: String::new(),
+      what: format!("the two processes explored different numbers of histories: {} vs {}", mine.len(), other.len()), replay: json!({"engine": "hist", "note": "set difference"}) });
+  }
+  let omap: std::collections::HashMap<(u64, u64), u64> = other.iter().map(|(a, b, c)| ((*a, *b), *c)).collect();
+  for (a, b, c) in mine {
+    if let Some(oc) = omap.get(&(*a, *b)) {
+      compared += 1;
+      if oc != c {
+        mismatches += 1;
+        if mismatches <= 3 {
+          use std::hash::{Hash, Hasher};
+          let prog = programs.iter().find(|(p, _)| { let mut h = Fnv::default(); p.hash(&mut h); h.finish() == *a }).map(|(p, _)| p.clone());
+          rep.violation(Violation { property: "C16".into(), oracle: "C16/cross-process-digest".into(), key: String::new(),
+            what: format!("a history produced different event sequences in two processes (history hash {:016x})", b),
+            replay: json!({"engine": "hist", "program": prog.as_ref().map(|p| p.to_json()), "program_short": prog.as_ref().map(|p| p.short()), "history_hash": format!("{:016x}", b)}) });
+        }
+      }
+    }
+  }
+  rep.set("cross_process_histories_compared", json!(compared));
+  rep.set("cross_process_mismatches", json!(mismatches));
+  rep.set("min_independent_executions_per_history", json!(2));
+}
